@@ -1,4 +1,56 @@
-use crate::{ctx::CaseOut, Params};
-pub fn case(_idx: u64, _seed: u64, _p: &Params, o: &mut CaseOut) {
-    o.skipped = true;
+//! C09 — Tarjan partitions the vertices into the strongly connected
+//! components.
+
+use crate::ctx::CaseOut;
+use crate::gen;
+use crate::model::Model;
+use crate::reprs::*;
+use crate::rng::{Fp, Rng};
+use crate::Params;
+use graaf::*;
+use std::collections::BTreeSet;
+
+pub const TYPES: [&str; 6] = ["AdjacencyList", "AdjacencyMap", "AdjacencyMatrix", "EdgeList", "AdjacencyListWeighted<usize>", "AdjacencyMap(non-contiguous)"];
+
+pub fn check<D: OutNeighbors + Vertices>(d: &D, m: &Model, o: &mut CaseOut) {
+    let mut t = Tarjan::new(d);
+    let comps: Vec<BTreeSet<usize>> = t.components().clone();
+    let total: usize = comps.iter().map(BTreeSet::len).sum();
+    let all: BTreeSet<usize> = comps.iter().flatten().copied().collect();
+    o.check(total == m.n() && all == m.verts && comps.iter().all(|c| !c.is_empty()), "not-a-partition", || format!("components {comps:?} of V {:?}", m.vert_list()));
+    let got: BTreeSet<BTreeSet<usize>> = comps.iter().cloned().collect();
+    let want = m.sccs();
+    o.check(got == want, "components", || format!("got {got:?} want {want:?}"));
+}
+
+pub fn case(idx: u64, seed: u64, p: &Params, o: &mut CaseOut) {
+    let mut r = Rng::for_case(9, seed, idx);
+    let max = p.usize("max_order", 16);
+    let fam = if r.chance(0.35) { 14 } else { r.below(gen::FAMILIES.len()) };
+    let n = gen::small_order(&mut r, max);
+    let mut m = gen::family(&mut r, fam, n);
+    let ty = r.below(6);
+    match ty {
+        0 => check(&AdjacencyList::build(&m), &m, o),
+        1 => check(&AdjacencyMap::build(&m), &m, o),
+        2 => check(&AdjacencyMatrix::build(&m), &m, o),
+        3 => check(&EdgeList::build(&m), &m, o),
+        4 => check(&build_w_usize(&m), &m, o),
+        _ => {
+            m = gen::sparsify(&mut r, &m);
+            check(&build_map_any(&m), &m, o);
+        }
+    }
+    let sccs = m.sccs();
+    let mut fp = Fp::new();
+    fp.us(ty);
+    m.fingerprint(&mut fp);
+    o.fp = fp.0;
+    o.nontrivial = sccs.len() >= 2 && sccs.iter().any(|c| c.len() >= 2);
+    o.bump(TYPES[ty]);
+    o.bump(gen::FAMILIES[fam]);
+    o.bumpn("components", sccs.len());
+    if o.want_desc {
+        o.desc = format!("{} family={} {}", TYPES[ty], gen::FAMILIES[fam], m.describe());
+    }
 }
